@@ -144,6 +144,10 @@ def main(argv=None):
         print('KNOWN-FINDING: property=%s %s' % (prop, f['what']))
     OUT = os.environ.get('VERIF_OUT', HERE)
     rdir = os.path.join(OUT, 'replays', prop)
+    if os.path.isdir(rdir):
+        for f in os.listdir(rdir):
+            if f.endswith('.json'):
+                os.unlink(os.path.join(rdir, f))      # replays of earlier runs of this check
     for sig, rec in unknown:
         os.makedirs(rdir, exist_ok=True)
         path = os.path.join(rdir, slug(sig) + '.json')
